@@ -225,7 +225,7 @@ func (g *projGen) perturb(m *pMethod, structNames []string) string {
 		}
 	}
 	kinds := []string{"add-unbound-param", "add-url-param", "results-none", "results-three", "results-nonerror", "verb-invalid", "verb-unsupported", "unknown-annotation", "bad-status",
-		"verb-case", "dup-path-alias", "swap-path-alias"}
+		"verb-case", "dup-path-alias", "swap-path-alias", "prefix-url-param", "alias-steals-variable"}
 	if len(bindIdx) > 0 {
 		kinds = append(kinds, "drop-annot", "dup-annot", "rename-annot-value", "retype-struct", "retype-slice", "bad-alias", "annot-no-value")
 	}
@@ -240,6 +240,17 @@ func (g *projGen) perturb(m *pMethod, structNames []string) string {
 		}
 	}
 	k := rng.Pick(r, kinds)
+	if os.Getenv("VH_CRASHY") != "" && r.Chance(1, 2) {
+		// C14: half of the perturbations are the ones that hand the tool values of an unexpected JSON5 kind
+		k = "null-prop"
+		hasSec := false
+		for _, a := range m.Annots {
+			hasSec = hasSec || a.Name == "Security"
+		}
+		if !hasSec && len(g.schemes) > 0 {
+			m.Annots = append(m.Annots, pAnnot{Name: "Security", Value: g.schemes[0].Name, Props: map[string]any{"scopes": []any{"read"}}})
+		}
+	}
 	switch k {
 	case "drop-annot":
 		i := rng.Pick(r, bindIdx)
@@ -341,10 +352,35 @@ func (g *projGen) perturb(m *pMethod, structNames []string) string {
 		m.Annots[routeIdx].Value += "/{sx}/{sa}"
 		m.Params = append(m.Params, pParam{Name: "sa", Type: "string"}, pParam{Name: "sb", Type: "string"})
 		m.Annots = append(m.Annots, pAnnot{Name: "Path", Value: "sa", Props: map[string]any{"name": "sx"}}, pAnnot{Name: "Path", Value: "sb", Props: map[string]any{"name": "sa"}})
+	case "alias-steals-variable":
+		// {ao} is bound through an alias by the parameter `ar`, whose own name is ANOTHER url variable that nothing
+		// binds; a stray @Path keeps the counts equal: {ar} has no path parameter, `ab` has no url variable
+		if routeIdx < 0 {
+			return "none"
+		}
+		m.Annots[routeIdx].Value += "/{ao}/{ar}"
+		m.Params = append(m.Params, pParam{Name: "ar", Type: "string"}, pParam{Name: "ab", Type: "string"})
+		m.Annots = append(m.Annots, pAnnot{Name: "Path", Value: "ar", Props: map[string]any{"name": "ao"}}, pAnnot{Name: "Path", Value: "ab"})
 	case "unknown-annotation":
 		m.Annots = append(m.Annots, pAnnot{Name: "Foo", Value: "bar"})
 	case "bad-status":
-		m.Annots = append(m.Annots, pAnnot{Name: "ErrorResponse", Value: rng.Pick(r, []string{"abc", "999"}), Desc: "x"})
+		// not a number, signed, beyond 32 bits (all "not numeric": an error), numeric but not a status code (a warning)
+		m.Annots = append(m.Annots, pAnnot{Name: rng.Pick(r, []string{"ErrorResponse", "ErrorResponse", "Response"}), Value: rng.Pick(r, []string{"abc", "999", "-204", "40400000000", "4294967296", "4294967295"}), Desc: "x"})
+	case "prefix-url-param":
+		// a url variable whose name is a proper prefix of an EARLIER one, unbound or repeated: the diagnostic must
+		// cover `{zz}`, not the head of `{zzType}`
+		if routeIdx < 0 {
+			return "none"
+		}
+		m.Params = append(m.Params, pParam{Name: "zzType", Type: "string"})
+		m.Annots = append(m.Annots, pAnnot{Name: "Path", Value: "zzType"})
+		if r.Bool() {
+			m.Annots[routeIdx].Value += "/{zzType}/{zz}"
+		} else {
+			m.Annots[routeIdx].Value += "/{zzType}/{zz}/{zz}"
+			m.Params = append(m.Params, pParam{Name: "zz", Type: "string"})
+			m.Annots = append(m.Annots, pAnnot{Name: "Path", Value: "zz"})
+		}
 	case "bad-alias-multibyte":
 		// an alias that is not a string, inside a properties object with multi-byte text: the diagnostic must still
 		// cover exactly `{ … }`
@@ -371,7 +407,7 @@ func (g *projGen) perturb(m *pMethod, structNames []string) string {
 			props[k] = v
 		}
 		if m.Annots[i].Name == "Security" {
-			props["scopes"] = rng.Pick(r, []any{nil, []any{nil}, []any{"a", nil}, "x", 5})
+			props["scopes"] = rng.Pick(r, []any{nil, []any{nil}, []any{"a", nil}, []any{"read", nil, "write"}, []any{5}, []any{[]any{"a"}}, map[string]any{"a": 1}, "x", 5, true})
 		} else {
 			props[rng.Pick(r, []string{"name", "validate"})] = rng.Pick(r, []any{nil, 5, []any{}, true, []any{"識別子"}})
 			if r.Bool() {
@@ -436,6 +472,11 @@ func genProject(r *rng.R, nPerturb int) (pProject, []string) {
 		fields := []pField{{Name: "Name", Type: "string", Tag: `json:"name" validate:"required"`, Doc: "The name"}, {Name: "Count", Type: "int", Tag: `json:"count" validate:"gte=0"`}}
 		if r.Chance(1, 3) {
 			fields = append(fields, pField{Name: "Kids", Type: "[]Item", Tag: `json:"kids"`})
+		}
+		if os.Getenv("VH_ODD_FIELDS") != "" && r.Chance(1, 3) {
+			// C08 only: field types the tool turns into a component reference without ever creating the component
+			// (whether it refuses the project or documents the field, the document it writes must be closed)
+			fields = append(fields, pField{Name: "Odd", Type: rng.Pick(r, []string{"byte", "rune", "uintptr", "complex128", "error", "map[string]byte", "[]rune", "struct{ A int }", "any", "[4]int", "func()", "chan int"}), Tag: `json:"odd"`})
 		}
 		p.Types = append(p.Types, pType{Kind: "struct", Name: "Item", Pkg: spkg, File: tp(spkg), Doc: []string{"An item"}, Fields: fields})
 	}
@@ -513,7 +554,9 @@ func genProject(r *rng.R, nPerturb int) (pProject, []string) {
 	if os.Getenv("VH_GENERIC") != "" && r.Chance(2, 3) {
 		// C14 only: a generic struct instantiated with a declared struct, an enum or a builtin as a route's result.
 		// Whether the tool supports this or reports an error, it must not crash.
-		p.Types = append(p.Types, pType{Kind: "struct", Name: "Box[T any]", Pkg: "ctl", File: "types.go", Fields: []pField{{Name: "V", Type: "T", Tag: `json:"v"`}, {Name: "N", Type: "int", Tag: `json:"n"`}}},
+		p.Types = append(p.Types, pType{Kind: "struct", Name: "Box[T any]", Pkg: "ctl", File: p.Controllers[0].File,
+			// methods on a generic type, declared in a scanned controller file: every function declaration there is looked at
+			Raw: "func (b *Box[T]) Touch() {}\n\nfunc (b Box[T]) Peek() T { return b.V }\n", Fields: []pField{{Name: "V", Type: "T", Tag: `json:"v"`}, {Name: "N", Type: "int", Tag: `json:"n"`}}},
 			pType{Kind: "struct", Name: "Rec", Pkg: "ctl", File: "types.go", Fields: []pField{{Name: "A", Type: "string", Tag: `json:"a"`}}})
 		gm := pMethod{Name: "Boxed", File: p.Controllers[0].File, Results: []string{"Box[" + rng.Pick(r, []string{"Rec", "string", "int", "[]Rec", "*Rec", "Box[Rec]"}) + "]", "error"},
 			Annots: []pAnnot{{Name: "Method", Value: "GET"}, {Name: "Route", Value: "/boxed"}}}
